@@ -10,6 +10,7 @@
 //!             file, restarts the service, waits for the start-up recompute, reads all tables.
 use discret::verif_hooks::configuration::Configuration;
 use discret::verif_hooks::database::graph_database::{DbMessage, GraphDatabaseService};
+use discret::verif_hooks::database::edge::Edge;
 use discret::verif_hooks::database::node::{Node, NodeToInsert};
 use discret::verif_hooks::database::sqlite_database::{create_connection, WriteMessage, WriteStmt, Writeable};
 use discret::verif_hooks::event_service::{Event, EventService};
@@ -37,6 +38,8 @@ enum Req {
     Upd { target: usize, label: u64 },
     Del { target: usize },
     Nodes { labels: Vec<u64> },
+    /// synchronised references (add_edges): (source set-up row, destination set-up row, model key) per reference
+    Edges { links: Vec<(usize, usize, u64)> },
     Room { label: u64 },
     RoomUpd { label: u64, revoke_pet: bool, pet: Option<u64> },
     Compute,
@@ -70,6 +73,7 @@ fn arm_of(r: &Req) -> (u8, usize) {
         Req::Mut { .. } | Req::Upd { .. } => (2, 1),
         Req::Del { .. } => (1, 1),
         Req::Nodes { labels } => (4, labels.len()),
+        Req::Edges { links } => (5, links.len()),
         Req::Room { .. } | Req::RoomUpd { .. } => (6, 1),
         Req::Compute => (10, 1),
         Req::Write { .. } => (9, 1),
@@ -99,6 +103,8 @@ fn ops_of(r: &Req) -> Vec<Vec<Vec<String>>> {
         Req::Upd { target, label } => vec![vec![vec![put(k_setup(*target), *label, 1)], vec![]]],
         Req::Del { target } => vec![vec![vec![], vec![format!("Del {} {}", gn(1), gn(k_setup(*target)))], vec![]]],
         Req::Nodes { labels } => labels.iter().map(|l| vec![vec![put(*l, *l, 1)]]).collect(),
+        // one statement group per reference (Edge::write has no interior point); references are not logged (cell 0)
+        Req::Edges { links } => links.iter().map(|l| vec![vec![put(50000 + l.2, 1, 0)]]).collect(),
         // room node, admin entry, authorisation, its right: four InsertEntity, then the point in front of the changelog
         Req::Room { label } => vec![vec![vec![], vec![put(40000 + label, 1, 0)], vec![], vec![], vec![], vec![put(45000 + label, 1, 0)]]],
         Req::RoomUpd { label, revoke_pet, pet } => {
@@ -129,6 +135,7 @@ fn kind_of(r: &Req) -> &'static str {
         Req::Mut { .. } | Req::Upd { .. } => "KMutation",
         Req::Del { .. } => "KDeletion",
         Req::Nodes { .. } => "KNodes",
+        Req::Edges { .. } => "KEdges",
         Req::Room { .. } | Req::RoomUpd { .. } => "KRoomMutation",
         Req::Compute => "KCompute",
         Req::Write { .. } => "KWrite",
@@ -260,6 +267,7 @@ fn vis_of(r: &Req, st: &State, ids: &Ids) -> i64 {
             chk(a.map(|a| st.edges.contains(&(ids.room.clone(), a.0.clone()))).unwrap_or(false));
             if let Some(q) = pet { chk(by_name(&format!("L{}", q)).map(|x| x.2 == ids.ent_pet && x.1.as_ref() == Some(&ids.room)).unwrap_or(false)); }
         }
+        Req::Edges { links } => for l in links { chk(st.edges.contains(&(ids.setup[l.0].clone(), ids.setup[l.1].clone()))); },
         Req::Compute => {}
         Req::Write { key } => chk(st.config.contains(&format!("verif_{}", key))),
     }
@@ -499,6 +507,18 @@ async fn child(dir: PathBuf, spec: PathBuf, mode: u8, k: u64, out: PathBuf) {
                     }
                     let (reply, recv) = tokio::sync::oneshot::channel();
                     let _ = svc.sender.send(DbMessage::AddNodes(room_id, nodes, reply)).await;
+                    ack_task!(recv);
+                }
+                Req::Edges { links } => {
+                    // validly signed references between two stored rows of the room, as the synchronisation delivers them
+                    let mut edges = vec![];
+                    for l in links {
+                        let mut e = Edge { src: setup_ids[l.0], src_entity: template._entity.clone(), label: "pets".to_string(), dest: setup_ids[l.1], cdate: template.cdate, verifying_key: vec![], signature: vec![] };
+                        e.sign(&sk).unwrap();
+                        edges.push(e);
+                    }
+                    let (reply, recv) = tokio::sync::oneshot::channel();
+                    let _ = svc.sender.send(DbMessage::AddEdges(room_id, edges, reply)).await;
                     ack_task!(recv);
                 }
                 Req::Room { label } => {
@@ -845,7 +865,7 @@ fn build_case(w: &Workload, wid: usize, r: &RunResult, hits_free: u64) -> Case {
         fault);
     let mut by_kind: HashMap<&str, usize> = HashMap::new();
     for (_, q) in &flat { *by_kind.entry(match q { Req::Mut { stream: true, .. } => "mutation-stream", Req::Mut { .. } => "mutation", Req::Upd { .. } => "update", Req::Del { .. } => "deletion",
-        Req::Nodes { .. } => "ingested-nodes", Req::Room { .. } => "room-creation", Req::RoomUpd { .. } => "room-change", Req::Compute => "recompute", Req::Write { .. } => "generic-write" }).or_default() += 1; }
+        Req::Nodes { .. } => "ingested-nodes", Req::Edges { .. } => "ingested-edges", Req::Room { .. } => "room-creation", Req::RoomUpd { .. } => "room-change", Req::Compute => "recompute", Req::Write { .. } => "generic-write" }).or_default() += 1; }
     let n_ok = ack.iter().filter(|a| **a == 1).count();
     let n_err = ack.iter().filter(|a| **a == 2).count();
     let n_vis = vis.iter().filter(|v| **v == 1).count();
@@ -1016,6 +1036,16 @@ fn parent() {
         vec![Req::Upd { target: 0, label: 121 }, Req::Nodes { labels: vec![122, 123] }, Req::Compute]] });
     let n_random = scale(1, 40);
     for _ in 0..n_random { let np = 1 + rng.below(scale(2, 3) as u64) as usize; workloads.push(gen_workload(&mut rng, np, scale(3, 4))); }
+    // directed, behind the generated ones (their numbering is unchanged): a synchronised reference request (add_edges,
+    // writer arm Edges) in a batch that fails — in its own statement group, at the marks point, at COMMIT — alone and
+    // together with mutations / ingested rows / a deletion; every point of these workloads is armed below like any other
+    workloads.push(Workload { key: fixed_key(11), n_setup: 2, gate_ms: 12, buffer: 1024, phases: vec![vec![Req::Edges { links: vec![(0, 1, 131)] }]] });
+    workloads.push(Workload { key: fixed_key(12), n_setup: 3, gate_ms: 12, buffer: 1024, phases: vec![vec![Req::Edges { links: vec![(0, 1, 141), (1, 2, 142)] }]] });
+    workloads.push(Workload { key: fixed_key(13), n_setup: 2, gate_ms: 12, buffer: 1024, phases: vec![vec![Req::Upd { target: 0, label: 151 }, Req::Edges { links: vec![(0, 1, 152)] }]] });
+    workloads.push(Workload { key: fixed_key(14), n_setup: 3, gate_ms: 12, buffer: 1024, phases: vec![
+        vec![Req::Edges { links: vec![(1, 0, 161)] }, Req::Mut { persons: vec![(162, vec![163])], stream: false }, Req::Nodes { labels: vec![164] }, Req::Del { target: 2 }]] });
+    workloads.push(Workload { key: fixed_key(15), n_setup: 2, gate_ms: 12, buffer: 2, phases: vec![
+        vec![Req::Edges { links: vec![(0, 1, 171)] }], vec![Req::Upd { target: 1, label: 172 }, Req::Edges { links: vec![(1, 0, 173)] }]] });
     let par: usize = std::env::var("VERIF_C13_PAR").ok().and_then(|s| s.parse().ok()).unwrap_or(12);
 
     // fault-free runs: the number of hits and the kind of every point
